@@ -148,7 +148,8 @@ pub fn contexts(l: L, title: &str, n: usize) -> Vec<(Vec<Rec>, usize)> {
         v.push((recs, 25));
     }
     if n >= 3 {
-        v.push((vec![rec(TARGET_ID, title, 0), rec(1, &format!("{} {}", title, unrelated), 9), rec(2, unrelated, 7)], 3));
+        // two word-less records first (they occupy positions but have no grams), then the target between distractors
+        v.push((vec![rec(3, "---", 8), rec(4, "", 6), rec(1, &format!("{} {}", title, unrelated), 9), rec(2, unrelated, 7), rec(TARGET_ID, title, 0)], 5));
     }
     v
 }
